@@ -4359,7 +4359,7 @@ void NifFile::UpdateSkinPartitions(NiShape* shape) {
 	std::vector<std::set<int>> partBones(skinPart->partitions.size());
 	for (size_t triIndex = 0; triIndex < tris.size(); ++triIndex) {
 		int partInd = triParts[triIndex];
-		if (partInd < 0)
+		if (partInd < 0 || static_cast<size_t>(partInd) >= partBones.size())
 			continue;
 
 		Triangle tri = tris[triIndex];
